@@ -334,6 +334,25 @@ fn bitvectors(ctx: &mut Ctx) {
         ctx.case(hash64(&[6, n as u64, hash64(&m.ones.iter().map(|x| *x as u64).collect::<Vec<u64>>())]), true);
         ctx.sample(|| format!("bitvectors: {} -> BitVector x 8 support subsets, RankSupport, SelectSupport x2, SparseVector (set + multiset), RLVector", what()));
     }
+    // Sparse vectors over huge universes (every low width class), as in C02.
+    for k in 0..ctx.size(70, 700) {
+        index += 1;
+        if !ctx.mine(index) { continue; }
+        if !ctx.begin_case() { continue; }
+        let mut rng = ctx.rng(0xC6_3800 + index);
+        let w = 1 + (k * 7) % 63;
+        let max_m = if w >= 63 { 1 } else { std::cmp::max(1, std::cmp::min(300usize, (0.69 * (2.0f64).powi(64 - w as i32)) as usize)) };
+        let mt = 1 + rng.below(max_m);
+        let n = match k % 5 { 0 => usize::MAX - rng.below(3), 1 => (1usize << 63) + rng.below(1 << 20), _ => match crate::drivers::c02::universe_for(&mut rng, w, mt) { Some(n) => n, None => continue } };
+        let mt = if k % 5 < 2 { 1 + rng.below(8) } else { mt };
+        let pos = gen::sparse_positions(&mut rng, n, mt, w, gen::LAYOUTS[k % 6]);
+        let m = SetModel::new(n, pos);
+        if let Ok(sv) = mk::sparse_set(n, &m.ones) {
+            let args = QArgs::around(&m, &m.ones.iter().copied().take(30).collect::<Vec<usize>>(), true);
+            roundtrip(ctx, "sparse_vector", &sv, Some(&|x: &SparseVector| query_digest(x, &args, true)), &|| format!("SparseVector n={} m={}", n, m.ones.len()));
+        }
+        ctx.case(hash64(&[12, n as u64, m.ones.len() as u64]), true);
+    }
     // RL vectors with 0, 1, 9+ blocks and huge runs.
     for k in 0..ctx.size(20, 200) {
         index += 1;
